@@ -189,6 +189,19 @@ def getattr(I, st, v, name):
                 yield st, None
             yield st, bi("object.__init__", _obj_init)
             return
+        if m is None and name == "__new__":
+            # Class.__new__(C) of a class that defines none: object.__new__ - a blank instance of C, no __init__ run
+            if any(isinstance(c, BuiltinClass) and c.name != "object" for c in I.mro(v)):
+                raise Unsupported("__new__ inherited from a builtin base of %s" % v.name)
+
+            def _obj_new(I, st, a, k):
+                if len(a) != 1 or k or not isinstance(a[0], ClassVal) or not I.is_subclass(a[0], v):
+                    raise Unsupported("object.__new__ with these arguments")
+                if any(isinstance(c, BuiltinClass) and c.name != "object" for c in I.mro(a[0])) or I.class_lookup(a[0], "__new__")[0] is not None:
+                    raise Unsupported("object.__new__ of a class with a builtin base / its own __new__")
+                yield st, st.alloc(ObjE(a[0], {}))
+            yield st, bi("object.__new__", _obj_new)
+            return
         if m is None:
             yield st, exc("AttributeError", "type object '%s' has no attribute '%s'" % (v.name, name))
             return
@@ -463,6 +476,8 @@ def module_attr(I, st, mv, name):
         if mv.info.name == "armi.runLog" or mv.info.name.endswith(".runLog"):
             I.trust("runLog", "A7: armi.runLog calls are effect-free for the model")
             return bi("runLog." + name, lambda I, st, a, k: iter([(st, None)]))
+        if ("modglobal", mv.info.name, name) in st.ghost:
+            return st.ghost[("modglobal", mv.info.name, name)]  # rebound on this path
         try:
             return I.thaw_global(I.resolve_global(mv.info, name), st)
         except KeyError:
@@ -562,6 +577,11 @@ def setattr(I, st, obj, name, v, raw=False):
     if isinstance(obj, ClassVal):
         # class attribute rebinding (e.g. instance counters): kept per path
         st.ghost[("classattr", id(obj.node), name)] = v
+        yield st, None
+        return
+    if isinstance(obj, ModuleVal) and obj.info is not None and not (obj.info.name == "armi.runLog" or obj.info.name.endswith(".runLog")):
+        # module.NAME = v: the module global is rebound for the rest of this path (seen by lookup / module_attr)
+        st.ghost[("modglobal", obj.info.name, name)] = v
         yield st, None
         return
     raise Unsupported("attribute assignment on %r" % (obj,))
@@ -2554,30 +2574,70 @@ def make_ext_modules(I):
 
     def cp_deepcopy(I, st, a, k):
         I.trust("deepcopy", "A6: copy.deepcopy yields a structurally equal, disjoint copy (containers and plain objects; "
-                            "__getstate__/__setstate__ honoured as by copyreg: new object, state deep-copied, then set)")
-        memo = {}
+                            "__getstate__/__setstate__ honoured as by copyreg: new object, state deep-copied, then set; a class's own "
+                            "__deepcopy__(memo) is executed; the memo maps id(original) -> copy and is shared with nested deepcopy(x, memo) calls)")
         S = [st]
+        if len(a) > 2 or (k and set(k) - {"memo"}):
+            raise Unsupported("copy.deepcopy arguments")
+        mref = a[1] if len(a) > 1 else k.get("memo")
+        if mref is None:
+            mref = S[0].alloc(DictE({}))
+        elif not (isinstance(mref, Ref) and S[0].get(mref).kind == "dict" and S[0].get(mref).owner is None):
+            raise Unsupported("copy.deepcopy with a memo that is not a plain dict")
+
+        def memo():
+            return S[0].get(mref).items  # keyed by id(original) exactly as the builtin id() model numbers store objects
+
+        def ident(v):
+            return 1000000 + v.id
+
+        class _Raised(Exception):
+            """a copy-protocol method raised on its only path: the exception leaves deepcopy() as in Python"""
 
         def call1(fn, args):
             outs = list(I.call(fn, args, {}, S[0]))
-            if len(outs) != 1 or isinstance(outs[0][1], Exc):
-                raise Unsupported("copy protocol method forks or raises")
+            if len(outs) != 1:
+                raise Unsupported("copy protocol method forks")
             S[0] = outs[0][0]
+            if isinstance(outs[0][1], Exc):
+                raise _Raised(outs[0][1])
             return outs[0][1]
+
+        def has_ref(x):
+            return isinstance(x, Ref) or (isinstance(x, tuple) and any(has_ref(y) for y in x))
 
         def dc(v):
             if isinstance(v, Ref):
-                if v.id in memo:
-                    return memo[v.id]
+                if ident(v) in memo():
+                    return memo()[ident(v)]
                 e = S[0].get(v)
                 if e.kind == "obj":
-                    for hook in ("__deepcopy__", "__reduce_ex__", "__reduce__"):
+                    dcp, _ = I.class_lookup(e.cls, "__deepcopy__")
+                    if dcp is not None:
+                        # the class's own hook, run as the ordinary method it is; deepcopy() then records the result
+                        y = call1(BoundMethod(dcp, v), [mref])
+                        if not (isinstance(y, Ref) and y == v):
+                            memo()[ident(v)] = y
+                        return y
+                    for hook in ("__reduce_ex__", "__reduce__"):
                         if I.class_lookup(e.cls, hook)[0] is not None:
                             raise Unsupported("deepcopy of object with %s" % hook)
                     gs, _ = I.class_lookup(e.cls, "__getstate__")
                     ss, _ = I.class_lookup(e.cls, "__setstate__")
+                    if "__tuple__" in e.attrs:
+                        # instance of a class deriving from tuple: copyreg rebuilds it as cls.__new__(cls, <deep copy of the
+                        # items>) - the items are copied BEFORE the new object exists and is recorded in the memo
+                        if gs is not None or ss is not None or I.class_lookup(e.cls, "__new__")[0] is not None or I.class_lookup(e.cls, "__getnewargs__")[0] is not None:
+                            raise Unsupported("deepcopy of a tuple subclass with its own copy protocol")
+                        items = tuple(dc(x) for x in e.attrs["__tuple__"])
+                        new = S[0].alloc(ObjE(e.cls, {"__tuple__": items}))
+                        memo()[ident(v)] = new
+                        for kk, x in S[0].get(v).attrs.items():
+                            if kk != "__tuple__":
+                                S[0].get(new).attrs[kk] = dc(x)
+                        return new
                     new = S[0].alloc(ObjE(e.cls, {}))
-                    memo[v.id] = new
+                    memo()[ident(v)] = new
                     if gs is None:
                         attrs = {kk: dc(x) for kk, x in S[0].get(v).attrs.items()}
                         if ss is None:
@@ -2586,10 +2646,10 @@ def make_ext_modules(I):
                             call1(BoundMethod(ss, new), [S[0].alloc(DictE(attrs))])
                         return new
                     state = dc(call1(BoundMethod(gs, v), []))
-                    if ss is not None:
+                    if state is None:
+                        pass  # copyreg: no state, __setstate__ is not called
+                    elif ss is not None:
                         call1(BoundMethod(ss, new), [state])
-                    elif state is None:
-                        pass
                     elif isinstance(state, Ref) and S[0].get(state).kind == "dict" and all(isinstance(kk, str) for kk in S[0].get(state).items):
                         S[0].get(new).attrs.update(S[0].get(state).items)
                     else:
@@ -2598,8 +2658,31 @@ def make_ext_modules(I):
                 c = e.copy()
                 if e.kind == "dict":
                     c.owner = None  # a copy of obj.__dict__ is a plain dict, not the live view
+                if e.kind == "nd":
+                    # ndarray.__deepcopy__: a new array; entries of an object array are deep-copied with the same memo
+                    c.data = [dc(x) for x in e.data]
+                    new = S[0].alloc(c)
+                    memo()[ident(v)] = new
+                    return new
+                if e.kind == "dict" and any(has_ref(kk) for kk in e.items.keys()) and getattr_py(e, "default_factory") is None:
+                    # keys that are (or hold) objects are deep-copied too and the copy is filled entry by entry - y[copy(k)] = copy(v),
+                    # the value being copied first (Python evaluates the right-hand side first) - through the dict model, which
+                    # decides hash / == of the new keys; an insertion that forks or raises is outside the model
+                    c.items = {}
+                    new = S[0].alloc(c)
+                    memo()[ident(v)] = new
+                    for kk, x in list(e.items.items()):
+                        xc = dc(x)
+                        kc = dc(kk)
+                        outs = list(I.models.setitem(I, S[0], new, kc, xc))
+                        if len(outs) != 1 or isinstance(outs[0][1], Exc):
+                            raise Unsupported("deepcopy of a dict keyed by objects: insertion of a copied key forks or raises")
+                        S[0] = outs[0][0]
+                    return new
+                if e.kind in ("dict", "set", "numset") and any(has_ref(kk) for kk in (e.items if e.kind != "dict" else e.items.keys())):
+                    raise Unsupported("deepcopy of a dict / set keyed by objects")
                 new = S[0].alloc(c)
-                memo[v.id] = new
+                memo()[ident(v)] = new
                 if e.kind in ("list", "deque"):
                     items = [dc(x) for x in e.items]
                     S[0].get(new).items = items
@@ -2612,9 +2695,14 @@ def make_ext_modules(I):
             if isinstance(v, ObjDict):
                 # deepcopy(obj.__dict__): a plain dict holding deep copies of the instance attributes
                 return S[0].alloc(DictE({kk: dc(x) for kk, x in v.attrs(S[0]).items()}))
+            if isinstance(v, BoundMethod) and isinstance(v.self_val, Ref):
+                return BoundMethod(v.func, dc(v.self_val))  # types.MethodType: same function bound to the copy of its object
             return v
 
-        r = dc(a[0])
+        try:
+            r = dc(a[0])
+        except _Raised as e:
+            r = e.args[0]
         yield S[0], r
 
     E["copy"] = {"copy": bi("copy.copy", cp_copy), "deepcopy": bi("copy.deepcopy", cp_deepcopy)}
@@ -2646,13 +2734,213 @@ def make_ext_modules(I):
             return v
         raise Unsupported("%s of %r (only plain data is modelled)" % (what, v))
 
+    # ---- pickle of OBJECT GRAPHS (used when the value is not plain data): dumps() records a recipe - what the pickle stream
+    # would hold - by running the reduce protocol on the live objects (__reduce__ / __getstate__ are CALLED at dump time);
+    # loads() replays it: objects are created (cls.__new__(cls) or callable(*args)), recorded in the memo, THEN their state is
+    # rebuilt and handed to __setstate__ (or merged into __dict__) - the order pickle's NEWOBJ/REDUCE .. BUILD opcodes give.
+    # Classes, module-level functions and class methods are pickled by reference.  Outside the model (Unsupported): a
+    # user-defined __reduce_ex__ / __new__ / __getnewargs__, __slots__ without __getstate__, reduce values with list / dict
+    # items, dicts or sets keyed by objects, bound instance methods, anything the engine cannot name by reference.
+    class _PkRaised(Exception):
+        pass
+
+    def _pk_call1(I, S, fn, args):
+        outs = list(I.call(fn, args, {}, S[0]))
+        if len(outs) != 1:
+            raise Unsupported("pickle protocol method forks")
+        S[0] = outs[0][0]
+        if isinstance(outs[0][1], Exc):
+            raise _PkRaised(outs[0][1])
+        return outs[0][1]
+
+    def _pk_atom(I, st, v):
+        from . import bytesmodel
+
+        if v is None or isinstance(v, (bool, int, Fraction, str, bytes, PickleBlob, bytesmodel.BytesVal)):
+            return True
+        if is_z3(v):
+            if not (z3.is_int(v) or z3.is_real(v) or z3.is_bool(v)):
+                raise Unsupported("pickle of a term of sort %s" % v.sort())
+            return True
+        if isinstance(v, (ClassVal, BuiltinClass)):
+            return True  # by reference
+        if isinstance(v, FuncVal) and v.cls is None and v.closure is None and v.name != "<lambda>":
+            return True  # module-level function: by reference
+        if isinstance(v, BoundMethod) and isinstance(v.self_val, ClassVal) and isinstance(v.func, FuncVal) and "classmethod" in v.func.decorators():
+            return True  # class method: getattr(cls, name), by reference
+        return False
+
+    def _pk_record(I, S, root):
+        memo = {}
+
+        def has_ref(x):
+            return isinstance(x, Ref) or (isinstance(x, tuple) and any(has_ref(y) for y in x))
+
+        def rec(v):
+            if _pk_atom(I, S[0], v):
+                return ["atom", v]
+            if isinstance(v, tuple) and type(v) is tuple:
+                return ["tuple", [rec(x) for x in v]]
+            if not isinstance(v, Ref):
+                raise Unsupported("pickle of %r" % (v,))
+            if v.id in memo:
+                return memo[v.id]
+            e = S[0].get(v)
+            if e.kind in ("list", "deque"):
+                node = memo[v.id] = [e.kind, None]
+                node[1] = [rec(x) for x in e.items]
+                return node
+            if e.kind == "dict":
+                if getattr_py(e, "default_factory") is not None or e.owner is not None:
+                    raise Unsupported("pickle of a defaultdict / live __dict__")
+                if any(has_ref(kk) for kk in e.items):
+                    raise Unsupported("pickle of a dict keyed by objects")
+                node = memo[v.id] = ["dict", None]
+                node[1] = [(kk, rec(x)) for kk, x in e.items.items()]
+                return node
+            if e.kind == "set":
+                if any(has_ref(kk) for kk in e.items):
+                    raise Unsupported("pickle of a set of objects")
+                node = memo[v.id] = ["set", list(e.items)]
+                return node
+            if e.kind == "nd":
+                node = memo[v.id] = ["nd", e.copy(), None]
+                node[2] = [rec(x) for x in e.data]
+                return node
+            if e.kind != "obj":
+                raise Unsupported("pickle of a %s" % e.kind)
+            cls = e.cls
+            if not isinstance(cls, ClassVal):
+                raise Unsupported("pickle of an instance of %r" % (cls,))
+            for hook in ("__reduce_ex__", "__new__", "__getnewargs__", "__getnewargs_ex__"):
+                if I.class_lookup(cls, hook)[0] is not None:
+                    raise Unsupported("pickle of an object with %s" % hook)
+            red, _ = I.class_lookup(cls, "__reduce__")
+            if red is not None:
+                rv = _pk_call1(I, S, BoundMethod(red, v), [])
+                if not (isinstance(rv, tuple) and len(rv) in (2, 3) and isinstance(rv[1], tuple)):
+                    raise Unsupported("__reduce__ value outside the modelled forms (callable, args[, state])")
+                if not _pk_atom(I, S[0], rv[0]) or rv[0] is None or isinstance(rv[0], (bool, int, Fraction, str, bytes)) or is_z3(rv[0]):
+                    raise Unsupported("__reduce__ callable that is not picklable by reference")
+                node = ["reduce", rv[0], rec(rv[1]), None]  # callable and arguments are written BEFORE the object is memoised
+                memo[v.id] = node
+                if len(rv) == 3 and rv[2] is not None:
+                    node[3] = rec(rv[2])
+                return node
+            gs, _ = I.class_lookup(cls, "__getstate__")
+            if gs is None and any(isinstance(c, ClassVal) and "__slots__" in I.class_members(c) for c in I.mro(cls)):
+                raise Unsupported("pickle of an object with __slots__ and no __getstate__")
+            if any(isinstance(c, BuiltinClass) and c.name not in ("object", "tuple") for c in I.mro(cls)):
+                raise Unsupported("pickle of an instance of a class with a builtin base")
+            if "__tuple__" in e.attrs:
+                node = ["obj", cls, rec(tuple(e.attrs["__tuple__"])), None]
+            else:
+                node = ["obj", cls, None, None]
+            memo[v.id] = node
+            if gs is not None:
+                state = _pk_call1(I, S, BoundMethod(gs, v), [])
+                node[3] = None if state is None else rec(state)
+            else:
+                attrs = {kk: x for kk, x in S[0].get(v).attrs.items() if kk != "__tuple__"}
+                node[3] = ["dict", [(kk, rec(x)) for kk, x in attrs.items()]] if attrs else None
+            return node
+
+        return rec(root)
+
+    def _pk_replay(I, S, root):
+        lm = {}
+
+        def set_state(new, snode):
+            if snode is None:
+                return
+            state = build(snode)
+            ne = S[0].get(new) if isinstance(new, Ref) else None
+            if ne is None or ne.kind != "obj":
+                raise Unsupported("pickle: state for a reconstructed value that is not an object")
+            ss, _ = I.class_lookup(ne.cls, "__setstate__")
+            if ss is not None:
+                _pk_call1(I, S, BoundMethod(ss, new), [state])
+            elif isinstance(state, Ref) and S[0].get(state).kind == "dict" and all(isinstance(kk, str) for kk in S[0].get(state).items):
+                S[0].get(new).attrs.update(S[0].get(state).items)
+            else:
+                raise Unsupported("pickle: state that is not a dict for an object without __setstate__")
+
+        def build(node):
+            kind = node[0]
+            if kind == "atom":
+                return node[1]
+            if kind == "tuple":
+                return tuple(build(x) for x in node[1])
+            if id(node) in lm:
+                return lm[id(node)]
+            if kind in ("list", "deque"):
+                new = lm[id(node)] = S[0].alloc(ListE([]) if kind == "list" else DequeE([]))
+                items = [build(x) for x in node[1]]
+                S[0].get(new).items = items
+                return new
+            if kind == "dict":
+                new = lm[id(node)] = S[0].alloc(DictE({}))
+                items = {kk: build(x) for kk, x in node[1]}
+                S[0].get(new).items = items
+                return new
+            if kind == "set":
+                new = lm[id(node)] = S[0].alloc(SetE(node[1]))
+                return new
+            if kind == "nd":
+                c = node[1].copy()
+                c.data = [build(x) for x in node[2]]
+                new = lm[id(node)] = S[0].alloc(c)
+                return new
+            if kind == "obj":
+                attrs = {"__tuple__": build(node[2])} if node[2] is not None else {}
+                new = lm[id(node)] = S[0].alloc(ObjE(node[1], attrs))
+                set_state(new, node[3])
+                return new
+            if kind == "reduce":
+                args = build(node[2])
+                new = _pk_call1(I, S, node[1], list(args))
+                lm[id(node)] = new
+                set_state(new, node[3])
+                return new
+            raise EngineError("pickle recipe node %r" % (kind,))
+
+        return build(root)
+
+    class PickleRecipe:
+        def __init__(self, root):
+            self.root = root
+
     def pk_dumps(I, st, a, k):
         I.trust("pickle", "A6: pickle.loads(pickle.dumps(x)) of plain data (numbers, None, str, bytes, containers of these) is a structurally equal, disjoint copy")
-        yield st, PickleBlob(_plain_copy(st, a[0], "pickle"))
+        try:
+            plain = PickleBlob(_plain_copy(st, a[0], "pickle"))
+        except Unsupported:
+            plain = None
+        if plain is not None:
+            yield st, plain
+            return
+        I.trust("pickle-objects", "A6: pickle of object graphs follows the reduce protocol: __reduce__ / __getstate__ run at dumps(), objects are "
+                                  "re-created (cls.__new__ / callable(*args)), memoised, then given their state (__setstate__ / __dict__) at loads(); classes, "
+                                  "module functions and class methods by reference")
+        S = [st]
+        try:
+            root = _pk_record(I, S, a[0])
+        except _PkRaised as e:
+            yield S[0], e.args[0]
+            return
+        yield S[0], PickleBlob(PickleRecipe(root))
 
     def pk_loads(I, st, a, k):
         if not isinstance(a[0], PickleBlob):
             raise Unsupported("pickle.loads of something that is not a modelled pickle.dumps result")
+        if isinstance(a[0].payload, PickleRecipe):
+            S = [st]
+            try:
+                r = _pk_replay(I, S, a[0].payload.root)
+            except _PkRaised as e:
+                r = e.args[0]
+            yield S[0], r
+            return
         yield st, _plain_copy(st, a[0].payload, "pickle")
 
     E["pickle"] = {"dumps": bi("pickle.dumps", pk_dumps), "loads": bi("pickle.loads", pk_loads)}
@@ -2714,6 +3002,23 @@ def make_ext_modules(I):
 
     E["struct"] = bytesmodel.make_struct(I)
     E["io"] = {"DEFAULT_BUFFER_SIZE": 8192}
+    def rnd_randint(I, st, a, k):
+        # random.randint(lo, hi): ANY integer of the closed range (a fresh unconstrained Int with lo <= r <= hi on the path
+        # condition), so a discharged obligation holds for every outcome of the generator
+        if k or len(a) != 2 or any(isinstance(x, bool) or not (isinstance(x, int) or (is_z3(x) and z3.is_int(x))) for x in a):
+            raise Unsupported("random.randint arguments")
+        lo, hi = a
+        if not (isinstance(lo, int) and isinstance(hi, int)):
+            raise Unsupported("random.randint with symbolic bounds")
+        if lo > hi:
+            yield st, exc("ValueError", "empty range for randrange() (%d, %d, %d)" % (lo, hi + 1, hi + 1 - lo))
+            return
+        r = I.fresh("int", "randint")
+        st.pc.append(z3.And(r >= lo, r <= hi))
+        yield st, r
+
+    E["random"] = {"randint": bi("random.randint", rnd_randint)}
+    E["sys"] = {"maxsize": 2**63 - 1}  # 64-bit CPython (the native interpreter of this framework); nothing else of sys is modelled
     E["numpy"] = npmodel.make_module(I)
     E["numpy.linalg"] = npmodel.make_linalg(I)
     E["numpy.char"] = npmodel.make_char(I)
